@@ -683,3 +683,73 @@ package part
 //@   requires m.singleton == nil || !m.hasTree
 //@   ensures @singleton-or-tree-never-both (result.singleton == nil || !result.hasTree) && (result.singleton != nil || result.hasTree)
 //@   ensures @singleton-replaced-by-a-new-pair result.singleton != nil ==> fresh(result.singleton)
+//@ func Map.Delete
+//@   property C17
+//@   flag nosafety
+//@   maypanic
+//@   flag dyncall.bytesFromKeyFunc=pure
+//@   flag assumepre=tree-representation-invariant
+//@   requires m.singleton == nil || !m.hasTree
+//@   ensures @singleton-or-tree-never-both result.singleton == nil || !result.hasTree
+//@   atcall (*Tree).Txn@1 requires @transaction-on-the-maps-own-tree $0 == addr(m.tree)
+//@   atcall (*Txn).Delete@1 requires @deletes-through-that-transaction $0 == txn
+//@   mustcall (*Txn).Delete@1 when @a-tree-backed-map-deletes-through-a-transaction m.singleton == nil && m.hasTree
+// Set operations (C17): every write goes through a transaction opened on the receiver's OWN tree
+// (the argument's tree is only read through an iterator), and the result is what that
+// transaction committed.
+//@ func Set.Delete
+//@   property C17
+//@   flag nosafety
+//@   maypanic
+//@   flag dyncall.toBytes=pure
+//@   flag assumepre=tree-representation-invariant
+//@   atcall (*Tree).Txn@1 requires @transaction-on-the-sets-own-tree $0 == addr(s.tree)
+//@   atcall (*Txn).Delete@1 requires @deletes-through-that-transaction $0 == txn
+//@   mustcall (*Txn).Commit@1 when @a-tree-backed-set-commits-its-transaction s.hasTree
+//@ func Set.Union
+//@   property C17
+//@   flag nosafety
+//@   maypanic
+//@   flag assumepre=tree-representation-invariant
+//@   atcall (*Tree).Txn@1 requires @transaction-on-the-receivers-own-tree $0 == addr(s.tree)
+//@   atcall (*Tree).Iterator@1 requires @reads-the-arguments-tree $0 == addr(s2.tree)
+//@   atcall (*Txn).Insert@1 requires @inserts-what-the-iterator-handed-out $0 == txn && $1 == k
+//@   mustcall (*Txn).Commit@1 when @two-tree-backed-sets-commit-the-union s.hasTree && s2.hasTree
+//@   ensureslocal @an-empty-operand-leaves-the-other-as-it-is (!s2.hasTree ==> result.hasTree == s.hasTree) && (s2.hasTree && !s.hasTree ==> result.hasTree)
+//@ func Set.Difference
+//@   property C17
+//@   flag nosafety
+//@   maypanic
+//@   flag assumepre=tree-representation-invariant
+//@   atcall (*Tree).Txn@1 requires @transaction-on-the-receivers-own-tree $0 == addr(s.tree)
+//@   atcall (*Tree).Iterator@1 requires @reads-the-arguments-tree $0 == addr(s2.tree)
+//@   atcall (*Txn).Delete@1 requires @deletes-what-the-iterator-handed-out $0 == txn && $1 == k
+//@   mustcall (*Txn).Commit@1 when @two-tree-backed-sets-commit-the-difference s.hasTree && s2.hasTree
+
+// ---------------------------------------------------------------------------
+// Iterator (C11, C01, C17): All neither consumes the iterator nor touches the tree - its work
+// stack is a local array or freshly allocated memory, never the iterator's own edge stack (an
+// iterator value may be traversed several times and shared between copies); Next writes only
+// the iterator itself and memory it allocates, never a tree node.
+//@ func (*leaf).fullKey
+//@   trusted
+//@   pure
+//@ func Iterator.All
+//@   property C01 C02 C04 C09 C11 C17
+//@   flag nosafety
+//@   flag assumepre=nodes-reached-from-a-tree-are-well-formed
+//@   flag dyncall.yield=pure
+//@   ensures @iteration-writes-only-its-own-stack onlyFresh()
+//@   loop 1 invariant @own-stack arr(next) == nextArray || fresh(next) || cap(next) == 0
+//@   loop 1 invariant @frame onlyFresh()
+//@ func (*Iterator).Next returns (key, value, ok)
+//@   property C01 C02 C04 C09 C11 C17
+//@   flag nosafety
+//@   flag assumepre=nodes-reached-from-a-tree-are-well-formed
+//@   atstore header requires @never-writes-a-tree-node false
+//@   atstore leaf requires @never-writes-a-tree-node false
+//@   atstore node4 requires @never-writes-a-tree-node false
+//@   atstore node16 requires @never-writes-a-tree-node false
+//@   atstore node48 requires @never-writes-a-tree-node false
+//@   atstore node256 requires @never-writes-a-tree-node false
+//@   ensures @nil-iterator-yields-nothing it == nil ==> !ok
